@@ -103,6 +103,19 @@ func c04gen(r *gen.R) c04case {
 			// member of a nested object like any other
 			v = gen.V{Kind: "group", Items: []gen.KV{{Key: "n", Val: r.Scalar("i", o)}, {Key: "time", Val: r.Scalar("time", o)}}}
 		}
+		if r.P(4) {
+			// a list of instants / durations that is EMPTY (or nil): a list like any other - an empty array
+			switch r.Intn(4) {
+			case 0:
+				v = gen.V{Kind: "times", Go: []time.Time{}}
+			case 1:
+				v = gen.V{Kind: "times", Go: []time.Time(nil)}
+			case 2:
+				v = gen.V{Kind: "durs", Go: []time.Duration{}}
+			default:
+				v = gen.V{Kind: "durs", Go: []time.Duration(nil)}
+			}
+		}
 		c.kvs = append(c.kvs, gen.KV{Key: key, Val: v})
 	}
 	// an Attrs bundle built by NewAttrs after the other arguments (often after an attribute with the EMPTY key)
